@@ -50,6 +50,10 @@ type HookSpec struct {
 	// HoldSyncs: the first n Synchronization executions of this hook are parked on a gate while cluster
 	// changes of the Early list are applied (so that Events arrive while a Synchronization is running)
 	HoldSyncs int `json:"hold_syncs,omitempty"`
+	// MonitorFails: creating the monitor of the kubernetes binding with this index fails this many times (the kind is
+	// not served yet): the hook's EnableKubernetesBindings task fails and is retried
+	MonitorFails     int `json:"monitor_fails,omitempty"`
+	MonitorFailIndex int `json:"monitor_fail_index,omitempty"`
 }
 
 type Step struct {
@@ -194,6 +198,10 @@ func Gen(t *rapid.T) Case {
 		}
 		if len(hs.Kube) > 0 && !hs.V0 && rapid.IntRange(0, 2).Draw(t, "hold") == 0 {
 			hs.HoldSyncs = rapid.IntRange(1, 2).Draw(t, "nhold")
+		}
+		if len(hs.Kube) > 0 && !hs.V0 && rapid.IntRange(0, 5).Draw(t, "monfail") == 0 {
+			hs.MonitorFails = rapid.IntRange(1, 2).Draw(t, "nmonfail")
+			hs.MonitorFailIndex = rapid.IntRange(0, len(hs.Kube)-1).Draw(t, "monfailidx")
 		}
 		if hs.OnStartup == nil && len(hs.Kube) == 0 && len(hs.Sched) == 0 {
 			o := 1
@@ -365,6 +373,14 @@ func Run(c Case) (*Trace, error) {
 		}
 		if err := env.Tree.AddHook(h.Name, 0o755, vh.Script{Config: h.Config(), Rules: rules}); err != nil {
 			return nil, fmt.Errorf("harness: %v", err)
+		}
+	}
+	for _, h := range c.Hooks {
+		if h.MonitorFails > 0 && h.MonitorFailIndex < len(h.Kube) {
+			if env.AddMonitorFaults == nil {
+				env.AddMonitorFaults = map[string]int{}
+			}
+			env.AddMonitorFaults[h.Name+"/"+h.Kube[h.MonitorFailIndex].Name] = h.MonitorFails
 		}
 	}
 	if err := env.Assemble(); err != nil {
